@@ -7,14 +7,16 @@
 import Valida.Rule
 import ValidaSpec.Walk
 import ValidaProofs.Lemmas.Basic
+import ValidaProofs.Lemmas.C15Cast
 namespace ValidaProofs
 open Valida ValidaGen ValidaSpec
+open C15L
 
 /-- the cast tables of the source: only strings are cast, to bool or to int -/
 theorem C15_cast_tables :
     castLookup = [((PyType.str, PyType.bool), "cast_string_to_bool"), ((PyType.str, PyType.int), "int")] ∧
     castDtypeLookup = [("str", PyType.str), ("bool", PyType.bool), ("int", PyType.int)] := by
-  sorry
+  exact ⟨rfl, rfl⟩
 
 /-- `cast_string_to_bool`: "true"/"false" in any letter case, anything else is not converted -/
 theorem C15_cast_bool (s : String) :
@@ -22,12 +24,12 @@ theorem C15_cast_bool (s : String) :
       (if String.ofList (s.toList.map Char.toLower) = "true" then .ok (.bool true)
        else if String.ofList (s.toList.map Char.toLower) = "false" then .ok (.bool false)
        else .error .typeError) := by
-  sorry
+  exact castStringToBool_eq s
 
 /-- a node whose type has no declared cast is left as it is -/
 theorem C15_uncastable_type (casts : List (PyType × String)) (v : PyVal)
     (h : ∀ c ∈ casts, PyVal.instOf v c.1 = false) : castNode casts v = .ok none := by
-  sorry
+  exact castNode_uncastable casts v h
 
 /-- a string under a single declared cast: replaced when the cast succeeds, left alone when the cast
     raises one of the exceptions `Rule.test` catches -/
@@ -36,14 +38,14 @@ theorem C15_cast_str (fn : String) (s : String) :
       (match applyCast fn (.str s) with
        | .ok v' => .ok (some v')
        | .error e => if caughtBy catchesCast e then .ok none else .error e) := by
-  sorry
+  exact castNode_str_single fn s
 
 /-- the rule is judged on the copy (with this rule's casts applied) when it declares casts, on the
     document itself otherwise; a cast-free rule leaves the copy alone -/
 theorem C15_judged_on_copy (r : RuleM) (doc copy : PyVal) (t : RuleTestR) (copy' : PyVal)
     (h : r.test doc copy = .ok (t, copy')) :
     (r.cast = [] → t.data = doc ∧ copy' = copy) ∧ (r.cast ≠ [] → t.data = copy') := by
-  sorry
+  exact test_judged r doc copy t copy' h
 
 /-- writing one level: the written key now holds the value, every other key holds what it held -/
 theorem C15_setItem_dict (kvs : List (PyVal × PyVal)) (k v : PyVal) (c' : PyVal)
@@ -51,29 +53,29 @@ theorem C15_setItem_dict (kvs : List (PyVal × PyVal)) (k v : PyVal) (c' : PyVal
     ∃ kvs', c' = .dict kvs' ∧ kvs'.map (·.1) = kvs.map (·.1) ∧
       ∀ (i : Nat) (kv : PyVal × PyVal), kvs[i]? = some kv →
         kvs'[i]? = some (if PyVal.pyEq k kv.1 then (kv.1, v) else kv) := by
-  sorry
+  exact setItem_dict_spec kvs k v c' hk h
 
 theorem C15_setItem_list (xs : List PyVal) (i : Nat) (v : PyVal) (hi : i < xs.length) :
     setItem (.list xs) (.int i) v = .ok (.list (xs.set i v)) := by
-  sorry
+  exact setItem_list_spec xs i v hi
 
 /-- nodes that are not selected-and-castable are not written: if no selected node is castable the
     copy is returned as it is -/
 theorem C15_nothing_castable (casts : List (PyType × String)) (sub : List PyVal) (copy : PyVal)
     (h : ∀ x ∈ sub, ∃ v q, x = PyVal.tuple [v, PyVal.tuple q] ∧ castNode casts v = .ok none) :
     castLoop casts sub copy = .ok copy := by
-  sorry
+  exact castLoop_nothing casts sub copy h
 
 /-- one castable node at path `q`: the copy afterwards is the copy with that node replaced -/
 theorem C15_one_castable (casts : List (PyType × String)) (v v' : PyVal) (q : List PyVal) (copy : PyVal)
     (hq : q ≠ []) (hc : castNode casts v = .ok (some v')) :
     castLoop casts [PyVal.tuple [v, PyVal.tuple q]] copy = setAt copy q v' := by
-  sorry
+  exact castLoop_one casts v v' q copy hq hc
 
 /-- the schema result's cast data is the copy after all rules, in applied order -/
 theorem C15_cast_data_fold (rs : List RuleM) (doc : PyVal) (v : Validated) (h : validate rs doc = .ok v) :
     ∃ ts, validateLoop rs doc doc = .ok (ts, v.castData) ∧ v.tests = ts := by
-  sorry
+  exact validate_fold rs doc v h
 
 /-! non-vacuity -/
 example : valueIs (do
